@@ -52,7 +52,7 @@ class Ctx:
     # -- randomness -------------------------------------------------------
     def rng(self, tag=""):
         return random.Random(
-            "%s:%s:%s:%s" % (self.prop, self.seed, self.shard.get("id"), tag)
+            "%s:%s:%s%s:%s" % (self.prop, self.seed, self.shard.get("id"), "@O" if self.shard.get("pyopt") else "", tag)
         )
 
     # -- counting ---------------------------------------------------------
@@ -107,6 +107,7 @@ class Ctx:
                 "witness": w,
                 "traceback": tb,
                 "shard": self.shard.get("id"),
+                "pyopt": bool(self.shard.get("pyopt")),
             }
         else:
             f["count"] += 1
